@@ -165,6 +165,7 @@ def combos(tier, model):
 
 
 def run(tier, seed, only=None):
+    pool.set_recycle(12)
     rep = Report(
         PID, tier, seed, "exploration",
         rule="models %s x weight patterns (data: absent/positive/mixed signs; phase space: absent/positive/mixed signs; background: none / unweighted (-w_bkg) / own weights) "
